@@ -39,7 +39,11 @@ def r_list(c, ind):
     if c[0] == "S":
         if not c[1]:
             return ":"  # cannot render an empty list; generator never produces one
-        return "; ".join(r_andor(x, ind) for x in c[1])
+        parts = [r_andor(x, ind) for x in c[1]]
+        out = parts[0]
+        for x in parts[1:]:
+            out += sep(ind) + x
+        return out
     return r_andor(c, ind)
 
 
@@ -69,7 +73,28 @@ def opt(n):
     return "" if n is None else " %d" % n
 
 
+COMPOUND_KINDS = ("I", "J", "W", "U", "F", "G", "C", "Gr", "Su", "K")
+
+
 def r_cmd(c, ind):
+    """render one command; with `ind["deco"]` (a random.Random) a compound command or function call sometimes
+    gets a redirect that changes nothing observable (the trace goes to stdout / fd 3): the same program through
+    the code path "compound command with a redirect list" """
+    s = _r_cmd0(c, ind)
+    d = ind.get("deco")
+    if d is not None and c[0] in COMPOUND_KINDS and d.random() < 0.22:
+        s += d.choice([" 2>/dev/null", " 2>/dev/null", " </dev/null", " 2>&2", " 4>/dev/null"])
+    return s
+
+
+def sep(ind):
+    d = ind.get("deco")
+    if d is not None and ind.get("deco_nl") and d.random() < 0.2:
+        return "\n"
+    return "; "
+
+
+def _r_cmd0(c, ind):
     k = c[0]
     if k == "L":
         return "L %d %s" % (c[1], " ".join(map(str, c[2])))
@@ -81,7 +106,7 @@ def r_cmd(c, ind):
         els = c[3]
         if els[0] in ("I", "J") and ind.get("elif", True):
             # render the nested if as an elif chain
-            inner = r_cmd(els, ind)
+            inner = _r_cmd0(els, ind)
             assert inner.startswith("if ") and inner.endswith("fi")
             return "if %s; then %s; el%s" % (r_list(c[1], ind), r_list(c[2], ind), inner)
         return "if %s; then %s; else %s; fi" % (r_list(c[1], ind), r_list(c[2], ind), r_list(els, ind))
@@ -150,11 +175,20 @@ def sq(s):
     return "'" + s.replace("'", "'\\''") + "'"
 
 
-def render(prog, prelude=True, raw_esac=False, fd3=False):
+def render(prog, prelude=True, raw_esac=False, fd3=False, deco=None, deco_nl=True):
+    """deco: None, or a seed: semantics-preserving decorations (harmless redirects on compound commands, newlines
+    for `;`, `function f {` for `f() {`) chosen from it"""
     funcs, main = prog
     ind = {"raw_esac": raw_esac, "fd3": fd3}
+    if deco is not None:
+        import random as _random
+        ind["deco"] = _random.Random(deco)
+        ind["deco_nl"] = deco_nl
     out = (PRELUDE3 if fd3 else PRELUDE) if prelude else ""
     for i, body in enumerate(funcs):
+        if deco is not None and ind["deco"].random() < 0.3:
+            out += "function f%d { %s; }\n" % (i, r_list(body, ind))
+            continue
         out += "f%d() { %s; }\n" % (i, r_list(body, ind))
     out += r_list(main, ind) + "\n"
     return out
